@@ -237,3 +237,75 @@ func TestVerifC14Overlap(t *testing.T) {
 	}
 	_ = strings.Join
 }
+
+
+// TestVerifC14Authzid (part "authzid"): an authorization identity different from
+// the authenticated one is refused. Three accounts whose names are related
+// (bob, bob@example.org, alice); every pair (authenticated name, authorization
+// identity) from the account names and their spelling variants, with the right
+// password of the authenticated account, through PLAIN under every
+// normalisation / user-name map configuration.
+func TestVerifC14Authzid(t *testing.T) {
+	r := vx.Start("C14", "authzid")
+	defer r.Finish()
+	r.Rule("SASL PLAIN through the real SASL layer over a three-account provider (bob, bob@example.org, alice): authenticated name x authorization identity from {the account names, upper-case / fullwidth spellings, local part of a name with a domain, name with a domain appended, unknown} x 6 normalisation / user-name-map configurations, always with the right password of the authenticated account; oracle: the exchange succeeds only if the authorization identity is absent or byte-equal to the authenticated name, and the identity reported is the authenticated name")
+	if r.Replaying() {
+		return
+	}
+	creds := map[string]string{"bob": "pw-bob", "bob@example.org": "pw-bob-domain", "alice": "pw-alice"}
+	g := &c14oOpen{creds: creds}
+	names := []string{"bob", "bob@example.org", "alice"}
+	variants := func(n string) []string {
+		out := []string{n, strings.ToUpper(n), "ｂ" + n[1:], n + "@example.org", "someone-else"}
+		if i := strings.Index(n, "@"); i > 0 {
+			out = append(out, n[:i])
+		}
+		return out
+	}
+	for _, cfg := range c14SASLConfigs() {
+		s := SASLAuth{Log: log.Logger{Out: log.NopOutput{}}, EnableLogin: true, Plain: []module.PlainAuth{g}, AuthNormalize: authz.NormalizeFuncs[cfg.Norm]}
+		if cfg.Map != nil {
+			s.AuthMap = c14MapTable{cfg.Map}
+		}
+		for _, authcid := range names {
+			// does this configuration let authcid authenticate at all?
+			base, _ := c14RunSASL(s.CreateSASL(sasl.Plain, nil, func(string, ContextData) error { return nil }), []byte("\x00"+authcid+"\x00"+creds[authcid]))
+			var zs []string
+			for _, n := range names {
+				zs = append(zs, variants(n)...)
+			}
+			for _, authzid := range zs {
+				var id string
+				ok, _ := c14RunSASL(s.CreateSASL(sasl.Plain, nil, func(i string, d ContextData) error { id = i; return nil }), []byte(authzid+"\x00"+authcid+"\x00"+creds[authcid]))
+				r.Eval()
+				c := map[string]string{"config": cfg.Name, "authcid": authcid, "authzid": authzid}
+				r.Nontrivial(vx.JSON(c))
+				switch {
+				case authzid != authcid && ok:
+					r.Violation("C14:authzid:foreign-authorization-identity-accepted", fmt.Sprintf("config %s: PLAIN authzid=%q authcid=%q with the password of %q succeeded (identity reported %q)", cfg.Name, authzid, authcid, authcid, id), c)
+					return
+				case authzid == authcid && ok != base:
+					r.Violation("C14:authzid:own-authorization-identity-changes-the-verdict", fmt.Sprintf("config %s: authcid %q alone = %v, with authzid = authcid %v", cfg.Name, authcid, base, ok), c)
+					return
+				}
+				if ok {
+					r.Outcome("own identity: accepted")
+				} else if authzid == authcid {
+					r.Outcome("own identity: account cannot authenticate under this configuration")
+				} else {
+					r.Outcome("foreign identity: refused")
+				}
+			}
+		}
+	}
+}
+
+// c14oOpen is an ungated provider over a fixed credential map.
+type c14oOpen struct{ creds map[string]string }
+
+func (g *c14oOpen) AuthPlain(user, pass string) error {
+	if p, ok := g.creds[user]; ok && p == pass {
+		return nil
+	}
+	return errors.New("invalid credentials")
+}
